@@ -87,6 +87,26 @@ pub(crate) fn add_i64_nested_single(r: &mut FastFieldsReader, name: &str, values
   );
 }
 
+/// One keyword per object: object i of document 0 holds dictionary entry `values[i]`.
+pub(crate) fn add_str_nested_single(r: &mut FastFieldsReader, name: &str, dict: Vec<String>, values: Vec<u32>) {
+  let n = values.len();
+  let mut object_offsets = Vec::with_capacity(n + 1);
+  let mut i = 0;
+  while i <= n {
+    object_offsets.push(i as u32);
+    i += 1;
+  }
+  r.fields.insert(
+    key("", name),
+    Column::StrNested {
+      dict,
+      doc_offsets: offs(n),
+      object_offsets,
+      values,
+    },
+  );
+}
+
 /// Concatenation equivalents of the three `format!`-based key builders (the real
 /// `format!` machinery costs 10-15 minutes of symbolic execution per call).
 pub(crate) fn concat_nested_count_key(path: &str) -> String {
